@@ -92,6 +92,26 @@ def cs_overlap3_cfgs():
     return out
 
 
+W3_TUPLES = [(("put", "a"), ("put", "a"), ("get", "a")), (("del", "a"), ("put", "a"), ("get", "a")),
+             (("put", "a"), ("del", "a"), ("get", "a")), (("put", "a"), ("put", "a"), ("iget", "a")),
+             (("del", "a"), ("put", "a"), ("iget", "a")), (("put", "a"), ("del", "a"), ("iget", "a"))]
+
+
+def cs_writes3_cfgs():
+    """Sharp triple family (both tiers): two overlapping writes of one key plus a read of it (plain, or
+    preceded by an invalidate so that it is a sure miss), full offset product on the integer grid."""
+    out = []
+    for pol in ("LRU", "FIFO"):
+        for wt in (True, False):
+            for cap in (1, 2):
+                for lat in ("R4W2D3", "R2W4D1"):
+                    out.append({"driver": "cs-writes3", "sys": "cs", "pol": pol, "wt": wt, "cap": cap, "lat": lat,
+                                "rseed": 1, "n_conc": 3, "span_half": 12, "step_half": 2,
+                                "alphabet": [("put", "a"), ("del", "a"), ("get", "a"), ("iget", "a")],
+                                "tuples": W3_TUPLES, "prefixes": [[], [("get", "a")]]})
+    return out
+
+
 def mtc_seq_cfgs(tier):
     out = []
     pols = ["LRU", "LFU", "Clock"] if tier == "quick" else POLICIES
@@ -234,7 +254,7 @@ def _replay_fps(rep, quiet=False):
     import contextlib
     import io
     drv = rep["driver"]
-    fn = {"cs-seq": replay_seq, "mtc-seq": replay_seq, "cs-overlap": replay_overlap, "cs-overlap3": replay_overlap,
+    fn = {"cs-seq": replay_seq, "mtc-seq": replay_seq, "cs-overlap": replay_overlap, "cs-overlap3": replay_overlap, "cs-writes3": replay_overlap,
           "mtc-overlap": replay_overlap, "warm": replay_overlap, "sttl": replay_sttl, "wpol": replay_wpol,
           "pagecache-seq": replay_pc}[drv]
     if quiet:
@@ -281,6 +301,13 @@ def main(tier, seed, only=None):
                                     "concurrent_ops": 2, "alphabet": CS_ALPHABET, "pre_states": CS_PREFIXES,
                                     "offset_grid_ticks": f"-6..6 step {cfgs[0]['step_half'] / 2}",
                                     "configs": len(cfgs)}, "overlap", cfgs))
+    if want("cs-writes3"):
+        cfgs = cs_writes3_cfgs()
+        plan.append(("cs-writes3", {"component": "CachedStore", "concurrent_ops": 3, "policies": ["LRU", "FIFO"],
+                                    "write_modes": 2, "capacity": [1, 2], "latency_sets": ["R4W2D3", "R2W4D1"],
+                                    "op_tuples": W3_TUPLES, "pre_states": [[], [("get", "a")]],
+                                    "offset_grid_ticks": "-6..6 step 1 (full product)", "configs": len(cfgs)},
+                     "overlap", cfgs))
     if want("mtc-seq"):
         cfgs = mtc_seq_cfgs(tier)
         plan.append(("mtc-seq", {"component": "MultiTierCache (2 CachedStore tiers)", "depth": cfgs[0]["depth"],
